@@ -71,6 +71,9 @@ def scenarios(run):
         for h in ([Q.Pl("append", "eof")], [Q.Pl("keep", "weof")], [Q.Pl("reappend", "nil"), Q.Pl("reset", "eof")],
                   [Q.Pl("append", "nil"), Q.Pl("overwrite", "nil"), Q.Pl("append", "eof")]):
             add(Q.cfg("stream", Q.S("hdr", "eos"), plan=h, init_rows=1), compression=comp, rows_per=12000)
+    # a round whose encoded block exceeds 1 MiB (90 000 incompressible rows), between smaller rounds
+    for comp in ["lz4", "zstd", "none", "disabled"]:
+        add(Q.cfg("stream", Q.S("hdr", "eos"), plan=[Q.Pl("reappend", "nil"), Q.Pl("overwrite", "nil"), Q.Pl("reappend", "eof")], init_rows=1), compression=comp, rows_per=90000)
     # write segmentations: the connection breaks inside every round
     for h in ([Q.Pl("append", "nil"), Q.Pl("overwrite", "nil"), Q.Pl("reappend", "eof")], [Q.Pl("append", "eof")]):
         for comp in ["disabled", "lz4"]:
